@@ -461,6 +461,7 @@ def job_oracles(script, trace):
             if has_inj: o = "?:(a control of this script)"
             if o.split(":")[1] == "towait": out.append(("C09", f"wait-for-end ticket {u} not resolved although nothing is running"))
             out.append(("C07", f"ticket {u} of `{o}` never resolved although no process is left and the script has gone quiet"))
+            if not ended: out.append(("C10", f"the control behind ticket {u} (`{o}`) was never executed: the job is alive and idle, nothing can hold a control back, yet its ticket never resolved — controls are executed exactly once"))
     # C06 / C09: each spawn is caused by one spawning control (start, restart, try-restart and graceful variants)
     nspawnctl = sum(1 for o in sends if o.split(":")[1] in ("start", "restart", "grestart", "tryrestart", "gtryrestart", "continue"))
     nspawn = sum(1 for e in ev if e.split(":")[1] in ("spawn", "spawnfail"))
@@ -959,7 +960,8 @@ def c12_streams(ctx):
             if a.get(src) != want: return f"flags [{' '.join(n for n, o in zip(flags, on) if o)}]{' (project git config)' if gc else ''}: probe owned by source `{src}` is {a.get(src)}, the flags say {want}"
         for lab, want in (("ex", "ign"), ("ip", "ign"), ("ok", "pass")):
             if a.get(lab) != want: return f"flags [{' '.join(n for n, o in zip(flags, on) if o)}]: explicit option probe `{lab}` is {a.get(lab)}, expected {want} whatever the flags"
-        fixed = ["fl:pass ok:ign ex:ign", "ff:pass ok:ign", "rs:pass toml:pass brs:ign ok:ign", "create:pass modify:ign"]
+        fixed = ["fl:pass ok:ign ex:ign", "ff:pass ok:ign", "rs:pass toml:pass brs:ign ok:ign", "create:pass modify:ign",
+                 "rs:pass toml:pass ok:ign", "fl:pass ok:ign", "ip:ign ok:pass", "ex:ign ok:pass"]
         for got, want in zip(rows[1:], fixed):
             if got != want: return f"flags [{' '.join(n for n, o in zip(flags, on) if o)}]: explicit option row is `{got}`, expected `{want}` whatever the flags"
         return None
